@@ -49,6 +49,11 @@ func (r *reader) Token() (xml.Token, error) {
 	case xml.StartElement:
 		r.depth++
 		if r.ws && t.Name.Space == wsNamespace && !r.negotiating {
+			if t.Name.Local == "close" {
+				// With the WebSocket subprotocol the peer ends its stream with a
+				// <close/> element instead of an end tag (RFC 7395 §3.6).
+				return nil, io.EOF
+			}
 			return nil, ErrUnexpectedRestart
 		}
 		if t.Name.Space != stream.NS {
